@@ -19,11 +19,32 @@ func gen(r *hlib.Rand, n int, tier, profile string, emit func(string, ...any)) {
 			maxRules = 20
 		}
 		w := fwlib.GenWorld(r, maxRules)
-		w.EmitSetup(emit, 1000*hour, 1000*hour, 1000*hour, 0)
+		cache := uint64(0)
+		if profile == "C17" {
+			// regardless of rules: often allow-everything in both directions; routine cache on half the time
+			if r.Bool() {
+				w.Rules = append(w.Rules, fwlib.Rule{Incoming: true, Host: "any", LocalCidr: "any"}, fwlib.Rule{Incoming: false, Host: "any", LocalCidr: "any"})
+			}
+			if r.Bool() {
+				cache = hour
+			}
+		}
+		w.EmitSetup(emit, 1000*hour, 1000*hour, 1000*hour, cache)
 		k := r.Range(8, 30)
 		for i := 0; i < k; i++ {
 			pi := r.Intn(len(w.Peers))
 			p, incoming := w.GenPacket(r, w.Peers[pi])
+			if profile == "C17" && r.Chance(1, 3) {
+				// spoofing: another peer's address, an edge of somebody's network, an address of this node
+				switch r.Intn(3) {
+				case 0:
+					p.RemoteAddr = w.Remote[r.Intn(len(w.Remote))]
+				case 1:
+					p.LocalAddr = w.Local[r.Intn(len(w.Local))]
+				default:
+					p.RemoteAddr, p.LocalAddr = p.LocalAddr, p.RemoteAddr
+				}
+			}
 			verb := "drop"
 			if profile == "C16" && r.Chance(1, 3) || profile != "C16" && r.Chance(1, 10) {
 				verb = "match"
@@ -50,7 +71,7 @@ func gen(r *hlib.Rand, n int, tier, profile string, emit func(string, ...any)) {
 }
 
 func newExec(t *testing.T) func([]string) string {
-	e := &fwlib.Exec{}
+	e := &fwlib.Exec{T: t}
 	return e.Do
 }
 
